@@ -1,2 +1,3 @@
 import CirqVerif.Props.C18
 import CirqVerif.Props.C18Views
+import CirqVerif.Props.C05
